@@ -56,7 +56,9 @@ impl Sink {
         }
     }
     pub fn sample(&mut self, v: impl FnOnce() -> serde_json::Value) {
-        if self.samples.len() < 6 {
+        // spread over the run: the 1st, 40th, 900th, 15000th ... evaluation
+        let n = self.evaluations;
+        if self.samples.len() < 6 && (n <= 1 || n == 40 || n == 900 || n == 15_000 || n == 200_000 || n == 3_000_000) {
             self.samples.push(v());
         }
     }
